@@ -26,7 +26,8 @@ Inductive bid :=
 | BPad        (* qp-plonky2 pad10_to_rate buffer inside hash_no_pad (upstream) *)
 | BSalt       (* string_to_felts(SALT): Vec<F>, public *)
 | BSqueeze    (* squeeze4: perm.squeeze()[..4].to_vec(), public (a hash) *)
-| BErr.       (* anyhow error message, public *)
+| BErr        (* anyhow error message, public *)
+| BSf.        (* a caller-built Vec<F> (spare capacity) wrapped directly with the public SensitiveFelts::new *)
 
 Inductive ev :=
 | Alloc (b : bid) (bytes : Z)
@@ -78,29 +79,30 @@ Record cell := mkCell { c_st : bstatus; c_size : Z; c_ever : bool }.   (* c_ever
 Definition dead_cell : cell := mkCell Dead 0 false.
 
 Record hstate := mkH { h_src : cell; h_nb : cell; h_nf : cell; h_ub : cell; h_uf : cell;
-                       h_pre : cell; h_pad : cell; h_salt : cell; h_sq : cell; h_err : cell }.
+                       h_pre : cell; h_pad : cell; h_salt : cell; h_sq : cell; h_err : cell; h_sf : cell }.
 Definition h_empty : hstate :=
-  mkH dead_cell dead_cell dead_cell dead_cell dead_cell dead_cell dead_cell dead_cell dead_cell dead_cell.
+  mkH dead_cell dead_cell dead_cell dead_cell dead_cell dead_cell dead_cell dead_cell dead_cell dead_cell dead_cell.
 
 Definition get (h : hstate) (b : bid) : cell :=
   match b with
   | BSrc => h_src h | BNulBytes => h_nb h | BNulFelts => h_nf h | BUaBytes => h_ub h | BUaFelts => h_uf h
-  | BPre => h_pre h | BPad => h_pad h | BSalt => h_salt h | BSqueeze => h_sq h | BErr => h_err h
+  | BPre => h_pre h | BPad => h_pad h | BSalt => h_salt h | BSqueeze => h_sq h | BErr => h_err h | BSf => h_sf h
   end.
 Definition upd (h : hstate) (b : bid) (c : cell) : hstate :=
   match h with
-  | mkH a1 a2 a3 a4 a5 a6 a7 a8 a9 a10 =>
+  | mkH a1 a2 a3 a4 a5 a6 a7 a8 a9 a10 a11 =>
     match b with
-    | BSrc => mkH c a2 a3 a4 a5 a6 a7 a8 a9 a10
-    | BNulBytes => mkH a1 c a3 a4 a5 a6 a7 a8 a9 a10
-    | BNulFelts => mkH a1 a2 c a4 a5 a6 a7 a8 a9 a10
-    | BUaBytes => mkH a1 a2 a3 c a5 a6 a7 a8 a9 a10
-    | BUaFelts => mkH a1 a2 a3 a4 c a6 a7 a8 a9 a10
-    | BPre => mkH a1 a2 a3 a4 a5 c a7 a8 a9 a10
-    | BPad => mkH a1 a2 a3 a4 a5 a6 c a8 a9 a10
-    | BSalt => mkH a1 a2 a3 a4 a5 a6 a7 c a9 a10
-    | BSqueeze => mkH a1 a2 a3 a4 a5 a6 a7 a8 c a10
-    | BErr => mkH a1 a2 a3 a4 a5 a6 a7 a8 a9 c
+    | BSrc => mkH c a2 a3 a4 a5 a6 a7 a8 a9 a10 a11
+    | BNulBytes => mkH a1 c a3 a4 a5 a6 a7 a8 a9 a10 a11
+    | BNulFelts => mkH a1 a2 c a4 a5 a6 a7 a8 a9 a10 a11
+    | BUaBytes => mkH a1 a2 a3 c a5 a6 a7 a8 a9 a10 a11
+    | BUaFelts => mkH a1 a2 a3 a4 c a6 a7 a8 a9 a10 a11
+    | BPre => mkH a1 a2 a3 a4 a5 c a7 a8 a9 a10 a11
+    | BPad => mkH a1 a2 a3 a4 a5 a6 c a8 a9 a10 a11
+    | BSalt => mkH a1 a2 a3 a4 a5 a6 a7 c a9 a10 a11
+    | BSqueeze => mkH a1 a2 a3 a4 a5 a6 a7 a8 c a10 a11
+    | BErr => mkH a1 a2 a3 a4 a5 a6 a7 a8 a9 c a11
+    | BSf => mkH a1 a2 a3 a4 a5 a6 a7 a8 a9 a10 c
     end
   end.
 
@@ -256,6 +258,19 @@ Definition unspendable_to_felts : vec * list ev :=
   let '(v, e2) := vec_extend v POSEIDON2_OUTPUT true in
   (v, e0 ++ e1 ++ e2).
 
+(* a caller of the PUBLIC constructor SensitiveFelts::new: it reserves a round scratch capacity up front (as the
+   type's documentation asks: full capacity reserved before secret material is written), writes a nullifier-shaped
+   felt encoding (hash, secret, transfer count) and wraps it.  SensitiveFelts::new takes the Vec over AS IT IS:
+   no copy, no shrink - a wrapper that re-fits the buffer would release the original block unscrubbed. *)
+Definition SF_SPARE_CAP : Z := 16.
+Definition caller_spare_felts : vec * list ev :=
+  let '(v, e0) := vec_with_capacity BSf FELT_BYTES SF_SPARE_CAP in
+  let '(v, e1) := vec_extend v POSEIDON2_OUTPUT false in
+  let '(v, e2) := vec_extend v POSEIDON2_OUTPUT true in
+  let '(v, e3) := vec_extend v NULLIFIER_TRANSFER_COUNT_NUM_TARGETS false in
+  (v, e0 ++ e1 ++ e2 ++ e3).
+Definition sensitive_felts_new (v : vec) : vec * list ev := (v, []).     (* Self(elements) *)
+
 (* an Err(anyhow!(..)) result: a heap message without secret material, dropped by the caller *)
 Definition anyhow_error : list ev := [Alloc BErr 64; WritePublic BErr; Free BErr].
 
@@ -265,8 +280,9 @@ Definition anyhow_error : list ev := [Alloc BErr 64; WritePublic BErr; Free BErr
 Record mstate := mkM { m_sec : bool; m_nul : bool; m_ua : bool;
                        m_nb : bool;    (* a live Nullifier::to_bytes buffer *)
                        m_nf : bool;    (* a live Nullifier::to_field_elements buffer *)
-                       m_ub : bool; m_uf : bool }.
-Definition m_init : mstate := mkM false false false false false false false.
+                       m_ub : bool; m_uf : bool;
+                       m_sf : bool }.  (* a live caller-built SensitiveFelts with spare capacity *)
+Definition m_init : mstate := mkM false false false false false false false false.
 
 Inductive op :=
 | SecretNewValid | SecretNewInvalid | SecretFromBytesDigest | SecretFromDigest | SecretTryFrom | SecretExpose | SecretDrop
@@ -276,6 +292,7 @@ Inductive op :=
 | UaNew | UaFromSecret | UaFromInputs
 | UaToBytes | UaFromBytes | UaDropBytes | UaToFelts | UaFromFelts | UaDropFelts | UaDrop
 | UaFromBytesBadLen | UaFromBytesBadId | UaFromFeltsBadLen
+| SfNewSpare | SfRead | SfDrop
 | Nop.
 
 Definition all_ops : list op :=
@@ -285,18 +302,20 @@ Definition all_ops : list op :=
    NulFromBytesBadLen; NulFromBytesBadHash; NulFromFeltsBadLen; NulFromFeltsBadCount;
    UaNew; UaFromSecret; UaFromInputs;
    UaToBytes; UaFromBytes; UaDropBytes; UaToFelts; UaFromFelts; UaDropFelts; UaDrop;
-   UaFromBytesBadLen; UaFromBytesBadId; UaFromFeltsBadLen].
+   UaFromBytesBadLen; UaFromBytesBadId; UaFromFeltsBadLen;
+   SfNewSpare; SfRead; SfDrop].
 
 (* wire code = position in all_ops; anything else is a no-op *)
 Definition op_of_Z (c : Z) : op := if (0 <=? c) && (c <? zlen all_ops) then nth (Z.to_nat c) all_ops Nop else Nop.
 
-Definition set_sec (m : mstate) (b : bool) := mkM b (m_nul m) (m_ua m) (m_nb m) (m_nf m) (m_ub m) (m_uf m).
-Definition set_nul (m : mstate) (b : bool) := mkM (m_sec m) b (m_ua m) (m_nb m) (m_nf m) (m_ub m) (m_uf m).
-Definition set_ua (m : mstate) (b : bool) := mkM (m_sec m) (m_nul m) b (m_nb m) (m_nf m) (m_ub m) (m_uf m).
-Definition set_nb (m : mstate) (b : bool) := mkM (m_sec m) (m_nul m) (m_ua m) b (m_nf m) (m_ub m) (m_uf m).
-Definition set_nf (m : mstate) (b : bool) := mkM (m_sec m) (m_nul m) (m_ua m) (m_nb m) b (m_ub m) (m_uf m).
-Definition set_ub (m : mstate) (b : bool) := mkM (m_sec m) (m_nul m) (m_ua m) (m_nb m) (m_nf m) b (m_uf m).
-Definition set_uf (m : mstate) (b : bool) := mkM (m_sec m) (m_nul m) (m_ua m) (m_nb m) (m_nf m) (m_ub m) b.
+Definition set_sec (m : mstate) (b : bool) := mkM b (m_nul m) (m_ua m) (m_nb m) (m_nf m) (m_ub m) (m_uf m) (m_sf m).
+Definition set_nul (m : mstate) (b : bool) := mkM (m_sec m) b (m_ua m) (m_nb m) (m_nf m) (m_ub m) (m_uf m) (m_sf m).
+Definition set_ua (m : mstate) (b : bool) := mkM (m_sec m) (m_nul m) b (m_nb m) (m_nf m) (m_ub m) (m_uf m) (m_sf m).
+Definition set_nb (m : mstate) (b : bool) := mkM (m_sec m) (m_nul m) (m_ua m) b (m_nf m) (m_ub m) (m_uf m) (m_sf m).
+Definition set_nf (m : mstate) (b : bool) := mkM (m_sec m) (m_nul m) (m_ua m) (m_nb m) b (m_ub m) (m_uf m) (m_sf m).
+Definition set_ub (m : mstate) (b : bool) := mkM (m_sec m) (m_nul m) (m_ua m) (m_nb m) (m_nf m) b (m_uf m) (m_sf m).
+Definition set_uf (m : mstate) (b : bool) := mkM (m_sec m) (m_nul m) (m_ua m) (m_nb m) (m_nf m) (m_ub m) b (m_sf m).
+Definition set_sf (m : mstate) (b : bool) := mkM (m_sec m) (m_nul m) (m_ua m) (m_nb m) (m_nf m) (m_ub m) (m_uf m) b.
 
 Definition when (b : bool) (e : list ev) : list ev := if b then e else [].
 
@@ -342,6 +361,11 @@ Definition op_step (m : mstate) (o : op) : mstate * list ev :=
   | UaDrop => (set_ua m false, [])
   | UaFromBytesBadLen | UaFromBytesBadId => (m, when (m_ub m) anyhow_error)
   | UaFromFeltsBadLen => (m, when (m_uf m) anyhow_error)
+  | SfNewSpare =>
+      (set_sf m true, when (m_sf m) (drop_sensitive_felts (fst caller_spare_felts)) ++ snd caller_spare_felts ++
+                      snd (sensitive_felts_new (fst caller_spare_felts)))
+  | SfRead => if m_sf m then (set_nul m true, []) else (m, [])   (* Nullifier::from_field_elements(sf.as_slice()) *)
+  | SfDrop => (set_sf m false, when (m_sf m) (drop_sensitive_felts (fst caller_spare_felts)))
   | Nop => (m, [])
   end.
 
@@ -350,7 +374,8 @@ Definition final_events (m : mstate) : list ev :=
   when (m_nb m) (drop_zeroizing (fst nullifier_to_bytes)) ++
   when (m_nf m) (drop_sensitive_felts (fst nullifier_to_felts)) ++
   when (m_ub m) (drop_zeroizing (fst unspendable_to_bytes)) ++
-  when (m_uf m) (drop_sensitive_felts (fst unspendable_to_felts)).
+  when (m_uf m) (drop_sensitive_felts (fst unspendable_to_felts)) ++
+  when (m_sf m) (drop_sensitive_felts (fst caller_spare_felts)).
 
 Fixpoint seq_events (m : mstate) (ops : list op) : list ev :=
   match ops with
